@@ -77,6 +77,22 @@ SHIFTS = lambda n: [0, 1, 2, 31, 32, 33, 62, 63, 64, 65, 127, 128, 129, 64 * n -
                     64 * n - 1, 64 * n, 64 * n + 1, 64 * n + 64, (1 << 32) - 1, 1000]
 
 
+# Special-case branches of the anchored Rust code and the generated class that executes each:
+#   add/sub carry out of the top limb .......... 'complement' (a+b = W), 'ones_complement' (a+b = W-1), 'pred'
+#   mul / mul_low early return on zero ......... operand class 'zero' (either side)
+#   muln/<<, divn/>> saturation (n >= 64N) ..... SHIFTS: 64N, 64N+1, 64N+64, 2^32-1 ('shift_ge')
+#   whole-limb loop only (n % 64 == 0) ......... SHIFTS: 64, 128, 64N-64 ('shift_limb'); sub-limb only: 1..63
+#   both loops, 64-n spill ..................... SHIFTS: 65, 127, 129, 64N-63, 64N-1
+#   num_bits: break on first non-zero limb ..... 'dense_short', 'small', 'zero' (all limbs zero: no break)
+#   get_bit: i >= 64N .......................... indices 64N, 64N+1
+#   from_bits: more than 64N bits (dropped) .... class 'len>'; partial last chunk: lengths 1, 63, 65
+#   FromStr: '+', '++', '_', leading '_', '-', empty, bad char, overflow by one -> see from_str stream
+#   find_wnaf: w outside 2..63 -> None ......... '/bad_w'; z >= 0 and z < 0 branches: dense operands
+#   find_wnaf/find_naf carry out of `+ |z|` .... 'within_2^(w-1)_of_top', 'at_top_threshold', 'all_ones' (F12)
+#   find_relaxed_naf: len < 3 guard ............ 'tiny' (0..7), 'zero' (F13); rewrite branch: 3, 11, ... dense
+#   signed_mod_reduction: modulus 2^63 ......... w = 63 (F14 wrapping subtraction)
+#   const_modulo!: carry out of mul2 ........... montgomery_r on 'top_bit', 'all_ones', 'near_top' moduli
+#   divide_by_2_round_down odd/even ............ every operand class; two_adic: 'high_two_adicity'
 def gen(rng, tier):
     scale = 1 if tier == 'quick' else 40
     Ns = list(range(1, 14))
